@@ -15,6 +15,7 @@ import (
 	"net"
 	"net/http"
 	"os"
+	"runtime"
 	"strings"
 	"sync"
 	"sync/atomic"
@@ -143,7 +144,7 @@ var h1Garbage = []string{
 	"GET / HTTP/1.1\r\n: novalue\r\n\r\n",
 	"POST / HTTP/1.1\r\nHost: x\r\nContent-Length: -1\r\n\r\nabc",
 	"POST / HTTP/1.1\r\nHost: x\r\nContent-Length: 99999999999999999999\r\n\r\nabc",
-	"POST / HTTP/1.1\r\nHost: x\r\nContent-Length: 2147483647\r\n\r\nonly-thirty-bytes-of-body-here",
+	"POST / HTTP/1.1\r\nHost: x\r\nContent-Length: 209715200\r\n\r\nonly-thirty-bytes-of-body-here", // announces 200 MiB (2 GiB would take the shared machine down: the listener allocates it)
 	"POST / HTTP/1.1\r\nHost: x\r\nContent-Length: 3\r\nContent-Length: 5\r\n\r\nabcde",
 	"POST / HTTP/1.1\r\nHost: x\r\nTransfer-Encoding: chunked\r\n\r\nzz\r\nabc\r\n0\r\n\r\n",
 	"POST / HTTP/1.1\r\nHost: x\r\nTransfer-Encoding: chunked\r\n\r\n7fffffffffffffff\r\nabc",
@@ -324,7 +325,7 @@ func genUpstreamGarbage(proto string) *rapid.Generator[hold[garbage]] {
 				"HTTP/1.1 200 OK\r\nContent-Length: -5\r\n\r\nabc",
 				"HTTP/1.1 abc OK\r\n\r\n",
 				"HTTP/9.9 200 OK\r\nContent-Length: 0\r\n\r\n",
-				"HTTP/1.1 200 OK\r\nContent-Length: 2147483647\r\n\r\nthirty bytes of the body only.",
+				"HTTP/1.1 200 OK\r\nContent-Length: 209715200\r\n\r\nthirty bytes of the body only.",
 				"HTTP/1.1 200 OK\r\nTransfer-Encoding: chunked\r\n\r\nzz\r\nabc\r\n0\r\n\r\n",
 				"HTTP/1.1 200 OK\r\nTransfer-Encoding: chunked\r\n\r\n7fffffffffffffff\r\nabc",
 				"HTTP/1.1 200 OK\r\nNoColonHere\r\n\r\n",
@@ -643,6 +644,8 @@ func containmentCase(rt *rapid.T, sc *scenario) {
 	var cleanup []func() // run in order: clients, upstreams, listeners (resets, no TIME_WAIT sockets)
 	var csA, csB, csC *mesh.Case
 	var upB *mesh.RawServer
+	var m0 runtime.MemStats
+	runtime.ReadMemStats(&m0)
 	t0 := time.Now()
 	var tBody time.Time
 	defer func() {
@@ -662,9 +665,9 @@ func containmentCase(rt *rapid.T, sc *scenario) {
 		}
 		for _, c := range []*mesh.Case{csA, csB, csC} {
 			if c != nil {
-				// in the background: removing a listener waits up to 15 s for its stream gauge to reach zero,
-				// which it does not always do after garbage (names and sockets are unique per case)
-				go c.Close()
+				// the listener is left in place (see mesh.Case.Abandon): removing it waits up to 15 s for a stream gauge
+				// that garbage can leave above zero, and concurrent removals race inside the connection handler
+				c.Abandon()
 			}
 		}
 	}()
@@ -725,11 +728,15 @@ func containmentCase(rt *rapid.T, sc *scenario) {
 		rt.Skip("dial: " + err.Error())
 	}
 	cleanup = append(cleanup, pC.close)
+	// a baseline that fails has nothing to do with containment (forwarding is C01's / C02's subject; on an
+	// overloaded machine the proxy's connect to the upstream can fail): the case is discarded
 	if e := pA.exchange("a"); e != "" {
-		fail("probe-fails-before-any-garbage", "baseline probe on the listener: %s", e)
+		ev.Class(partContain, "baseline-probe-failed")
+		rt.Skip("baseline probe on the listener: " + e)
 	}
 	if e := pC.exchange("c"); e != "" {
-		fail("probe-fails-before-any-garbage", "baseline probe on the second listener: %s", e)
+		ev.Class(partContain, "baseline-probe-failed")
+		rt.Skip("baseline probe on the second listener: " + e)
 	}
 
 	// garbage clients
@@ -813,6 +820,35 @@ func containmentCase(rt *rapid.T, sc *scenario) {
 	// and the old probe connections still work
 	if e := pA.exchange("a"); e != "" {
 		fail("probe-disturbed", "probe connection of the hammered listener after the garbage ended: %s", e)
+	}
+	// memory: nothing may be allocated for bytes that were only announced
+	var m1 runtime.MemStats
+	runtime.ReadMemStats(&m1)
+	sent := 0
+	announcedReq, announcedResp := false, false
+	for _, cl := range sc.Clients {
+		for _, g := range cl {
+			sent += len(g.Bytes)
+			if bytes.Contains(g.Bytes, []byte("Content-Length: 209715200")) {
+				announcedReq = true
+			}
+		}
+	}
+	for _, g := range sc.Upstream {
+		sent += len(g.Bytes)
+		if bytes.Contains(g.Bytes, []byte("Content-Length: 209715200")) {
+			announcedResp = true
+		}
+	}
+	if delta := m1.TotalAlloc - m0.TotalAlloc; delta > uint64(96<<20+32*sent) {
+		sig := "allocates-far-beyond-received-bytes"
+		switch {
+		case announcedReq:
+			sig = "allocates-announced-length:http1-request-content-length"
+		case announcedResp:
+			sig = "allocates-announced-length:http1-response-content-length"
+		}
+		fail(sig, "the process allocated %d MiB during the case while all garbage together was %d bytes", delta>>20, sent)
 	}
 }
 
